@@ -202,6 +202,9 @@ def life_module(idx, L, hist, entry, order=0, variables=("a", "b", "c"), generic
         elif act == "hash":
             call = "let res = format!(\"{:?}\", ::dx_support::feed_of(&p%s));" % a
             res = "res"
+        elif act == "debug_alt":
+            call = "let res = format!(\"\\\"{}\\\"\", ::dx_support::json_str(&format!(\"{:#?}\", p%s)));" % a
+            res = "res"
         elif act == "debug":
             call = "let res = format!(\"\\\"{}\\\"\", ::dx_support::json_str(&format!(\"{:?}\", p%s)));" % a
             res = "res"
